@@ -432,8 +432,7 @@ def sig_of(half, st, detail=None):
     feats = features(t, v) if st["expect"] == "ok" else set()
     if "null-collection-element" in feats:
         return "%s:collection-null-element" % half
-    where = t[0] if is_scalar(t) else "%s<%s>" % (t[0], "/".join(sorted(scalars_of(t))))
-    return "%s:%s%s" % (half, where, ":" + detail if detail else "")
+    return "%s:%s%s" % (half, t[0], ":" + detail if detail else "")      # scalar name / top-level composite kind
 
 
 def unusable_sig(half, pv):
@@ -561,6 +560,11 @@ def judge_roundtrip(drv, st, versions):
             continue
         break
     return n, out
+
+
+def verdict(devs):
+    """the judgement of a case as comparable data"""
+    return sorted((d[0], json.dumps(jsonable(d[2]), sort_keys=True)) for d in devs)
 
 
 def nontrivial(st):
